@@ -363,6 +363,32 @@ func implies(cond ast.Expr, want string, role func(string) string) bool {
 
 // containsCanon recognises bytes.Contains(X, []byte("L")), strings.Contains(X, "L"), and the Index forms compared with 0 / -1
 // (`>= 0`, `!= -1`, `> -1` positive; `< 0`, `== -1` negative), through parentheses, `!` and string(X) / []byte conversions.
+// canonPkgValues: package-level `var` / `const` initialisers by name (set by the caller for the package the expression lives in), so that a
+// needle held in a package-level variable (`var endTag = []byte("</html>")`) is read like the literal
+var canonPkgValues map[string]ast.Expr
+
+func pkgValues(p *pkgFiles) map[string]ast.Expr {
+	out := map[string]ast.Expr{}
+	for _, f := range p.files {
+		for _, d := range f.Decls {
+			gd, ok := d.(*ast.GenDecl)
+			if !ok || (gd.Tok != token.VAR && gd.Tok != token.CONST) {
+				continue
+			}
+			for _, sp := range gd.Specs {
+				vs, ok := sp.(*ast.ValueSpec)
+				if !ok || len(vs.Names) != len(vs.Values) {
+					continue
+				}
+				for i, n := range vs.Names {
+					out[n.Name] = vs.Values[i]
+				}
+			}
+		}
+	}
+	return out
+}
+
 func containsCanon(e ast.Expr) (subject, lit string, positive, ok bool) {
 	for {
 		p, isP := e.(*ast.ParenExpr)
@@ -375,7 +401,13 @@ func containsCanon(e ast.Expr) (subject, lit string, positive, ok bool) {
 		s, l, pos, k := containsCanon(ue.X)
 		return s, l, !pos, k
 	}
-	strip := func(x ast.Expr) string {
+	var strip func(x ast.Expr) string
+	strip = func(x ast.Expr) string {
+		if id, isI := x.(*ast.Ident); isI && canonPkgValues != nil {
+			if v, found := canonPkgValues[id.Name]; found {
+				return strip(v)
+			}
+		}
 		if ce, isC := x.(*ast.CallExpr); isC && len(ce.Args) == 1 {
 			f := types.ExprString(ce.Fun)
 			if f == "string" || f == "[]byte" {
@@ -415,4 +447,41 @@ func containsCanon(e ast.Expr) (subject, lit string, positive, ok bool) {
 		}
 	}
 	return "", "", false, false
+}
+
+// pathStepDecl: the function that resolves ONE step of a path - `Stack.resolveStep` in the pinned tree. It is found by what it is, not by
+// its name or by being a method: a same-package function reached from Stack.Resolve (directly or through one helper) whose body holds a
+// type switch with a `map[string]string` case.
+func pathStepDecl(root *pkgFiles) *ast.FuncDecl {
+	if fd := root.method("Stack", "resolveStep"); fd != nil {
+		return fd
+	}
+	res := root.method("Stack", "Resolve")
+	if res == nil {
+		return nil
+	}
+	hasStrMapCase := func(fd *ast.FuncDecl) bool {
+		found := false
+		ast.Inspect(fd.Body, func(n ast.Node) bool {
+			if cc, ok := n.(*ast.CaseClause); ok {
+				for _, e := range cc.List {
+					if types.ExprString(e) == "map[string]string" {
+						found = true
+					}
+				}
+			}
+			return !found
+		})
+		return found
+	}
+	bodies := map[*ast.BlockStmt]bool{}
+	for _, b := range bodiesReachable(root, res, 2) {
+		bodies[b] = true
+	}
+	for _, fn := range allFuncs(root) {
+		if fn.decl != res && fn.decl.Body != nil && bodies[fn.decl.Body] && hasStrMapCase(fn.decl) {
+			return fn.decl
+		}
+	}
+	return nil
 }
